@@ -642,25 +642,31 @@ func (w *kqueue) dirChange(dir string) error {
 		return fmt.Errorf("fsnotify.dirChange %q: %w", dir, err)
 	}
 
+	// Keep going after an error: one entry that can't be watched (unreadable,
+	// gone again, replaced by something else since we last looked) shouldn't
+	// keep the entries after it from being reported.
+	var first error
 	for _, f := range files {
 		fi, err := f.Info()
 		if err != nil {
-			if errors.Is(err, os.ErrNotExist) {
-				return nil
+			if !errors.Is(err, os.ErrNotExist) && first == nil {
+				first = fmt.Errorf("fsnotify.dirChange: %w", err)
 			}
-			return fmt.Errorf("fsnotify.dirChange: %w", err)
+			continue
 		}
 
 		err = w.sendCreateIfNew(filepath.Join(dir, fi.Name()), fi)
 		if err != nil {
 			// Don't need to send an error if this file isn't readable.
 			if errors.Is(err, unix.EACCES) || errors.Is(err, unix.EPERM) || errors.Is(err, os.ErrNotExist) {
-				return nil
+				continue
 			}
-			return fmt.Errorf("fsnotify.dirChange: %w", err)
+			if first == nil {
+				first = fmt.Errorf("fsnotify.dirChange: %w", err)
+			}
 		}
 	}
-	return nil
+	return first
 }
 
 // Send a create event if the file isn't already being tracked, and start
